@@ -1,6 +1,7 @@
 import LettreVerif.Proofs.HeaderEnc
 import LettreVerif.Spec.Rfc2047Dec
 import LettreVerif.Proofs.C12Roundtrip
+import LettreVerif.Proofs.Wire
 /-!
 # C12 — Header text survives encoding: a conforming reader recovers the exact string
 
@@ -14,6 +15,11 @@ encoded-words) and a writer side (`Proofs/Rfc2047Enc.lean`: the folding writer s
 apart) joined by an invariant over `HeaderValueEncoder::format`'s loop (`Proofs/C12Roundtrip.lean`). Also:
 every encoded-word the encoder can emit is valid on its own and decodes to exactly the word it carries
 (`encoded_word_roundtrip`), and the pieces an encoded value is made of are well formed (`C02.value_wf`).
+
+Structured fields (`Proofs/Wire.lean`): `display_name_roundtrip` — a display name in a mailbox header, written as an atom, a
+quoted string with quoted-pairs or encoded-words (`Model/MailboxEnc.lean`), is shown by the reader of structured fields
+(`Spec/StructuredDec.lean`) as exactly the name; `mailbox_header_read_back` — a whole mailbox list; `file_name_roundtrip` —
+the file name of a Content-Disposition (`Model/Rfc2231Enc.lean`: first-line, continuation and percent-encoded forms).
 -/
 namespace LV.C12
 open LV LV.HeaderEnc LV.Rfc2047Dec
@@ -81,5 +87,50 @@ example : ContRunsLe3 (str "né  né =?x?= a ") ∧
     · have : (str "né  né =?x?= a ").getD i 0 = 0 := by
         simp [List.getD_eq_getElem?_getD, List.getElem?_eq_none (by omega : (str "né  né =?x?= a ").length ≤ i)]
       rw [this] at hi; exact absurd hi.1 (by decide)
+
+/-! ## structured fields: display names and file names -/
+
+open LV.MailboxEnc LV.StructuredDec in
+/-- **A display name on the wire is shown as the name.** Whatever the name (any Rust string) and wherever on the line
+    the writer stands, what `quoted_string::encode` appends — a plain atom, a quoted string with quoted-pairs (folded
+    inside or not), or a run of encoded-words — is, once unfolded, a phrase that an RFC 5322 / RFC 2047 reader shows as
+    exactly the name. -/
+theorem display_name_roundtrip (w : W) (hi : Inv w) (name : Bytes) (hu : ContRunsLe3 name) :
+    ∃ R, (quotedStringEncode w name).view = w.view ++ R ∧ phraseDecode R = some name :=
+  name_wire w hi name hu
+
+open LV.MailboxEnc in
+/-- **A mailbox header on the wire, read back.** For every list of mailboxes (any names, printable-ASCII addresses):
+    unfolded, the header value is the items separated by `, `; each item is the address, or a phrase that a reader shows
+    as exactly the name, one blank, and the address in angle brackets. -/
+theorem mailbox_header_read_back (nameLen : Nat) (ms : List (Option Bytes × Bytes))
+    (hm : ∀ m ∈ ms, (∀ n, m.1 = some n → ContRunsLe3 n) ∧ Plain m.2) :
+    Shown ms (HeaderReader.unfold (headerValue nameLen ms)) :=
+  mailboxes_wire nameLen ms hm
+
+open LV.Rfc2231Enc LV.StructuredDec in
+/-- **Every file name is read back.** For every file name (any Rust string of less than 10^20 octets: printable or not,
+    quotes, backslashes, CR, LF, NUL, any Unicode) and every `kind` that is printable without blank, quote or semicolon
+    (`attachment`, `inline`): an RFC 2231 / RFC 5322 reader of the Content-Disposition value finds exactly the name. -/
+theorem file_name_roundtrip (kind name : Bytes) (hk : Plain kind) (hk32 : ∀ b ∈ kind, b ≠ 32) (hkne : kind ≠ [])
+    (hks : ∀ b ∈ kind, b ≠ 34 ∧ b ≠ 59) (hn : name.length < 10 ^ 20) :
+    paramDecode filenameKey (HeaderReader.unfold (cdispValue kind name)) = some name :=
+  filename_roundtrip kind name hk hk32 hkne hks hn
+
+open LV.Rfc2231Enc LV.StructuredDec in
+/-- the two kinds the API offers: `ContentDisposition::attachment(name)` and `ContentDisposition::inline_with_name(name)` -/
+theorem attachment_and_inline_file_names (name : Bytes) (hn : name.length < 10 ^ 20) :
+    paramDecode filenameKey (HeaderReader.unfold (cdispValue [97, 116, 116, 97, 99, 104, 109, 101, 110, 116] name)) = some name ∧
+    paramDecode filenameKey (HeaderReader.unfold (cdispValue [105, 110, 108, 105, 110, 101] name)) = some name :=
+  ⟨file_name_roundtrip _ name (by intro b hb; revert b; decide) (by decide) (by decide) (by decide) hn,
+   file_name_roundtrip _ name (by intro b hb; revert b; decide) (by decide) (by decide) (by decide) hn⟩
+
+open LV.Rfc2231Enc LV.StructuredDec in
+/-- non-vacuity: a short quoted name, a long printable one (continuations) and a non-ASCII one (percent-encoding), evaluated -/
+example :
+    paramDecode filenameKey (HeaderReader.unfold (cdispValue (str "attachment") (str "a \"b\".txt"))) = some (str "a \"b\".txt") ∧
+    paramDecode filenameKey (HeaderReader.unfold (cdispValue (str "inline") (List.replicate 150 120))) = some (List.replicate 150 120) ∧
+    paramDecode filenameKey (HeaderReader.unfold (cdispValue (str "attachment") (str "résumé 日本.pdf"))) = some (str "résumé 日本.pdf") := by
+  decide +kernel
 
 end LV.C12
